@@ -25,6 +25,11 @@ def _model(runner, prop, tier, seed, depth):
                       "states": res["distinct"], "transitions": res["generated"], "behaviours_exported": len(res["behaviours"]),
                       "exhaustive": True})
     mc.replay_behaviours(runner, cfg, frames, res["behaviours"], tier, rng_for(seed, "mc" + prop))
+    if tier != "quick" and prop in ("C07", "C08", "C09", "C11"):
+        long = mc.simulate_model("%s_mcstack_%s" % (prop, tier), len(frames), num=300, depth=60)
+        runner.mc.append({"model": "MCStack -simulate (300 random behaviours of up to 60 steps)", "behaviours_exported": len(long),
+                          "states": sum(len(h) for h in long), "transitions": sum(len(h) for h in long)})
+        mc.replay_long(runner, cfg, frames, long[:400])
 
 
 MODEL_QUICK = {"C07": 3, "C08": 3, "C09": 3}
